@@ -205,7 +205,7 @@ Proof.
   - intros so a l. sl. lia.
   - intros t z. unfold r_load_immediate. sl. lia.
   - intros t l. unfold r_load_label. sl. lia.
-  - intros t z. unfold r_add_and_jump. sl. lia.
+  - intros t z. unfold r_add_and_jump. destruct (addi_fits z); sl; lia.
   - intros o a b c. destruct o; cbn [r_arith]; sl; lia.
   - intros a b. unfold r_mov. sl. lia.
   - intros nl t c. sl. lia.
